@@ -15,8 +15,14 @@ import os
 import struct
 from fractions import Fraction
 
+import sys
+
 from vlib import common as C
 from checks import c05_doc as D
+
+sys.path.insert(0, os.path.join(C.ROOT, "tools"))
+import translate_errf  # noqa: E402
+from cxx2lean import Refuse  # noqa: E402
 
 EPS2 = 2.0 * 2.0 ** -52            # issmall threshold
 DMIN = 2.0 ** -1022
@@ -774,6 +780,16 @@ def shrink(exe, line, still_fails):
 def run(chk, replay=None):
     rng = C.SplitMix(chk.seed)
     broken = []
+    # the error functors and issmall as the code has them now -> Vita/C05/Gen.lean
+    gen = os.path.join(C.LEAN, "Vita", "C05", "Gen.lean")
+    try:
+        names, changed = translate_errf.emit(gen)
+        chk.cov["translated_functors"] = names
+        chk.cov["gen_changed_vs_committed"] = bool(changed)
+    except Refuse as e:
+        # Gen.lean keeps its last (committed) content: the driver still runs, the differential below
+        # compares the code with the old text
+        broken.append("translator tools/translate_errf.py refuses the current evaluator.tcc / utility.h: %s" % e)
     ok, out = C.lake_build(["c05_driver"])
     drv_ok = ok
     if not ok:
@@ -803,6 +819,7 @@ def run(chk, replay=None):
                       {"line": lines[idx]}, tags={"evaluator": lines[idx].split()[1], "kind": "crash"})
 
     ndis = 0
+    ngen = 0
     reported = set()
     for i, line in enumerate(lines):
         if i >= len(cpp):
@@ -908,15 +925,24 @@ def run(chk, replay=None):
         # ---- model vs code ----
         if lean is not None and lean[i] is not None:
             want = cpp_canon(line, c)
-            if lean[i].strip() != want.strip():
+            mod, _, genans = lean[i].partition(" ;; ")
+            mod = mod.strip()
+            genans = mod if genans.strip() in ("", "=") else genans.strip()
+            if mod != want.strip():
                 ndis += 1
                 if ndis <= 3:
                     broken.append(f"model and compiled evaluator disagree on `{line[:400]}`: "
-                                  f"model `{lean[i][:300]}`, code `{want[:300]}`")
+                                  f"model `{mod[:300]}`, code `{want[:300]}`")
+            if genans != want.strip():
+                ngen += 1
+                if ngen <= 2:
+                    broken.append(f"the terms generated from the clang AST (Vita/C05/Gen.lean) and the compiled functors "
+                                  f"disagree on `{line[:400]}`: generated `{genans[:300]}`, code `{want[:300]}`")
         if i % 397 == 0:
             chk.sample({"case": line[:160], "code": cpp_canon(line, c)[:120],
-                        "model": (lean[i][:120] if lean and lean[i] else None)})
+                        "model ;; generated": (lean[i][:120] if lean and lean[i] else None)})
     chk.cov["model_vs_code_disagreements"] = ndis
+    chk.cov["generated_terms_vs_code_disagreements"] = ngen
     chk.cov["cases"] = len(lines)
 
     concrete = [v for v in chk.violations if not v[2]]
